@@ -69,6 +69,9 @@ def run_cfg(chk, cfg, mode, drv_lines, keep, all_faults=True):
     ref = smcrun.run_smc(cfg, record_checkpoints=True)
     case0 = {"cfg": cfg, "mode": mode}
     chk.count(f"mode:{mode}")
+    if smcrun.collapsed_population(ref):
+        chk.count("skipped:population_collapsed_rejected_by_library")
+        return
     if ref["status"] != "done":
         chk.fail("run total", case0, repr(ref.get("exc")), {"clause": "raise"})
         return
